@@ -226,16 +226,29 @@ func checkC15(c *Ctx) {
 				}
 			})
 		}
-		for tok, name := range sugar {
-			c.check(found[tok] == name, "C15-SUGAR", "Parser.ParseExpression", tok, pe.Pos(), "read as ("+name+" ...)", "the reader maps "+tok+" to `"+found[tok]+"` instead of `"+name+"`")
+		// the reader and the compiler agree on the names (whatever they are): each sugar token is read as a
+		// list headed by a symbol; the two unquote heads are distinct and are the names the template walker
+		// tests for; the caret's and the quote's heads are special forms of the call generator
+		toks := make([]string, 0, len(sugar))
+		for tok := range sugar {
+			toks = append(toks, tok)
 		}
-		// the generator tests for the same names
+		sort.Strings(toks)
+		for _, tok := range toks {
+			c.check(found[tok] != "", "C15-SUGAR", "Parser.ParseExpression", tok, pe.Pos(), "read as ("+found[tok]+" ...)", "the reader does not turn "+tok+" into a list headed by a symbol")
+		}
 		if g := c.mustFn("C15-SUGAR", "Generator.generateSyntaxQuoteList"); g != nil {
 			names := stringsComparedIn(g)
-			c.check(names["unquote"] && names["unquote-splicing"], "C15-SUGAR", "Generator.generateSyntaxQuoteList", "names tested", g.Pos(), "the template walker recognises unquote and unquote-splicing", "the template walker no longer tests for the names the reader produces")
+			u, us := found["TokenTilde"], found["TokenTildeAt"]
+			c.check(u != "" && us != "" && u != us && names[u] && names[us], "C15-SUGAR", "Generator.generateSyntaxQuoteList", "names tested", g.Pos(),
+				"the template walker recognises the heads the reader makes for ~ and ~@ ("+u+", "+us+")",
+				"the template walker does not test for the names the reader produces for ~ and ~@ (`"+u+"`, `"+us+"`), or the two are the same name")
 		}
 		if g := c.mustFn("C15-SUGAR", "Generator.GenerateCallBySymbol"); g != nil {
-			c.check(stringsComparedIn(g)["syntaxQuote"], "C15-SUGAR", "Generator.GenerateCallBySymbol", "syntaxQuote arm", g.Pos(), "the special form the caret reads as exists", "no special form named syntaxQuote")
+			names := stringsComparedIn(g)
+			q, sq := found["TokenQuote"], found["TokenCaret"]
+			c.check(q != "" && sq != "" && names[q] && names[sq], "C15-SUGAR", "Generator.GenerateCallBySymbol", "syntaxQuote arm", g.Pos(),
+				"the special forms the quote and the caret read as exist ("+q+", "+sq+")", "the call generator has no special form named as the reader names the quote / the caret (`"+q+"`, `"+sq+"`)")
 		}
 	}
 
